@@ -6,7 +6,7 @@ import sys
 from fractions import Fraction as Fr
 import numpy as np
 from harness import coqio as Q
-from harness.impl import lin_wcs, exc_name
+from harness.impl import poke, lin_wcs, exc_name
 
 CORR = "C02_corr"
 IMPORTS = ["M_Slicing", "Shape", "M_ExtraCoords"]
@@ -184,23 +184,42 @@ def build(case):
     from ndcube import NDCube
     shape = tuple(case["shape"])
     cube = NDCube(np.arange(int(np.prod(shape))).reshape(shape), wcs=lin_wcs(len(shape)))
+    nd_ = len(shape)
+
+    class _EC:
+        """extra_coords.add with the array dimension(s) spelled, by turns, as given, counted from the last axis, as
+        numpy integers or as a list; a spelling the library refuses outright falls back to the plain one"""
+        @staticmethod
+        def add(names, dims, table, seed=0, **kw):
+            plain = dims
+            k = seed % 6
+            if isinstance(dims, tuple):
+                spelled = {0: tuple(d - nd_ for d in dims), 1: list(dims), 2: tuple(np.int64(d) for d in dims)}.get(k, dims)
+            else:
+                spelled = {0: dims - nd_, 2: np.int64(dims)}.get(k, dims)
+            try:
+                return cube.extra_coords.add(names, spelled, table, **kw)
+            except (ValueError, TypeError, IndexError):
+                if spelled is plain:
+                    raise
+                return cube.extra_coords.add(names, plain, table, **kw)
     for i, (kind, axes, seed) in enumerate(case["tabs"]):
         if kind == "q":
-            cube.extra_coords.add(f"n{i}0", axes[0], _vals(kind, shape[axes[0]], seed) * u.m, physical_types=f"custom:n{i}0")
+            _EC.add(f"n{i}0", axes[0], _vals(kind, shape[axes[0]], seed) * u.m, seed=seed, physical_types=f"custom:n{i}0")
         elif kind == "time":
-            cube.extra_coords.add(f"n{i}0", axes[0], Time(EPOCH) + np.abs(_vals(kind, shape[axes[0]], seed)) * 64 * u.s,
+            _EC.add(f"n{i}0", axes[0], Time(EPOCH) + np.abs(_vals(kind, shape[axes[0]], seed)) * 64 * u.s, seed=seed,
                                   physical_types=(f"custom:n{i}0" if seed % 2 else None))
         elif kind == "skymesh":
             v = _vals(kind, shape[axes[0]], seed)
-            cube.extra_coords.add((f"n{i}0", f"n{i}1"), tuple(axes), SkyCoord(np.abs(v) / 8 * u.deg, v / 16 * u.deg), mesh=True,
+            _EC.add((f"n{i}0", f"n{i}1"), tuple(axes), SkyCoord(np.abs(v) / 8 * u.deg, v / 16 * u.deg), seed=seed, mesh=True,
                                   physical_types=(f"custom:n{i}0", f"custom:n{i}1"))
         elif kind == "sky1":
             v = _vals(kind, shape[axes[0]], seed)
-            cube.extra_coords.add((f"n{i}0", f"n{i}1"), axes[0], SkyCoord(np.abs(v) / 8 * u.deg, v / 16 * u.deg),
+            _EC.add((f"n{i}0", f"n{i}1"), axes[0], SkyCoord(np.abs(v) / 8 * u.deg, v / 16 * u.deg), seed=seed,
                                   physical_types=((f"custom:n{i}0", f"custom:n{i}1") if seed % 2 else None))
         else:
-            cube.extra_coords.add((f"n{i}0", f"n{i}1"), tuple(axes),
-                                  (_vals(kind, shape[axes[0]], seed) * u.m, _vals(kind, shape[axes[1]], seed + 1) * u.m),
+            _EC.add((f"n{i}0", f"n{i}1"), tuple(axes),
+                                  (_vals(kind, shape[axes[0]], seed) * u.m, _vals(kind, shape[axes[1]], seed + 1) * u.m), seed=seed,
                                   physical_types=(f"custom:n{i}0", f"custom:n{i}1"))
     return cube
 
@@ -251,6 +270,7 @@ def _child(case):
     cube = build(case)
     cur = cube
     for its in case["chain"]:
+        poke(cur, case["key"])                 # (asked about itself before it is sliced)
         cur = cur[Q.dec_items(its)]
     return cube, cur
 
